@@ -123,6 +123,16 @@ func vsimCropRun(r *sim.Run, c08 bool) {
 			}
 		}
 	}
+	if t.Chance(150) {
+		// the children of moov in another (legal) order, e.g. a non-trak box between two traks
+		for n := 1 + t.Draw(2); n > 0; n-- {
+			if nd, what, ok := work.SwapMoovChildren(img, t.Draw(8)); ok {
+				img = nd
+				name += "[" + what + "]"
+				r.Probe("moov-children-reordered")
+			}
+		}
+	}
 	din, err := ref.DemuxStream(img, nil)
 	if err != nil || din.Movie == nil {
 		panic(sim.HarnessAbort{Msg: fmt.Sprintf("input %s not readable by the reference: %v", name, err)})
